@@ -219,6 +219,10 @@ func (p c16) Run(c *core.Ctx) {
 		p.changing(c)
 		return
 	}
+	if c.Index%10 == 4 {
+		p.retried(c)
+		return
+	}
 	cfg := genC16Config(c)
 	b, _ := yaml.Marshal(cfg.tree)
 	doc := string(b)
@@ -382,6 +386,110 @@ func (p c16) Run(c *core.Ctx) {
 
 // changing: the configuration changes (Configure.Set from a component's Init) between the resolution
 // of two tags that quote the same key; every resolution must see the value configured at that time.
+// setPath returns a copy of tree with path set to v.
+func setPath(tree map[string]any, path string, v any) map[string]any {
+	out := map[string]any{}
+	for k, x := range tree {
+		out[k] = x
+	}
+	parts := strings.Split(path, ".")
+	if len(parts) == 1 {
+		out[path] = v
+		return out
+	}
+	sub, _ := out[parts[0]].(map[string]any)
+	if sub == nil {
+		sub = map[string]any{}
+	}
+	out[parts[0]] = setPath(sub, strings.Join(parts[1:], "."), v)
+	return out
+}
+
+// retried: a component that is fetched on demand; its first creation attempt fails after its tags were
+// processed (its Init fails once, or a placeholder without default names a key that is absent), the
+// caller swallows the error, the configuration changes at run time, and the component is requested
+// again. Every attempt processes the tags as written, against the configuration of that moment.
+func (p c16) retried(c *core.Ctx) {
+	g := world.NewG(c.Rng)
+	h := g.AddNode(8, "on-demand") // T08: lazy, has Init
+	key := []string{"feature.mode", "k1", "srv.region"}[c.Rng.Intn(3)]
+	sel := []string{"pick", "srv.pick"}[c.Rng.Intn(2)]
+	initial := []any{nil, "local", 7}[c.Rng.Intn(3)]
+	updated := []string{"remote", "eu", "v2"}[c.Rng.Intn(3)]
+	tags := []string{"${" + key + ":dflt}", "x-${" + key + ":dflt}-y", "${" + key + "}", "${" + key + "}/${" + key + ":d}", "${${" + sel + ":" + key + "}:dd}"}
+	tag := tags[c.Rng.Intn(len(tags))]
+	required := tag == "${"+key+"}" && c.Rng.Intn(2) == 0
+	failInit := !(required && initial == nil) // otherwise the absent key already fails the first attempt
+	val := tag
+	if !required {
+		val += ",required=false"
+	}
+	cfg := map[string]world.TagSpec{"CfgS": {Tag: "value", Val: val}}
+	// a section chosen by a placeholder inside a prefix path
+	withPrefix := c.Rng.Intn(2) == 0
+	if withPrefix {
+		cfg["CfgM"] = world.TagSpec{Tag: "prefix", Val: "sect.${" + key + ":dflt}"}
+	}
+	g.Sc.Nodes[h].Cfg = cfg
+	if failInit {
+		g.Sc.Nodes[h].FailOnce = []string{"init"}
+	}
+	tree := map[string]any{"other": "x", "sect": map[string]any{
+		"dflt": map[string]any{"who": "d"}, "local": map[string]any{"who": "l"}, "7": map[string]any{"who": "seven"},
+		"remote": map[string]any{"who": "r"}, "eu": map[string]any{"who": "e"}, "v2": map[string]any{"who": "v"}}}
+	if initial != nil {
+		tree = setPath(tree, key, initial)
+	}
+	b, _ := yaml.Marshal(tree)
+	g.Sc.Config = string(b)
+	run := world.Build(g.Sc, world.Options{NoTracer: true, BinderBudget: 20000})
+	run.Go()
+	c.Count("starts", 1)
+	detail := map[string]any{"tag": val, "key": key, "initial": fmt.Sprint(initial), "set_between_the_attempts": updated, "init_fails_once": failInit, "config": g.Sc.Config}
+	if run.Outcome() != "ok" {
+		c.Fail("", "start with a lazy, unreferenced component did not succeed: "+core.Short(run.OutcomeDetail(), 300), detail)
+		return
+	}
+	var err1, err2 error
+	run.Guard(func() { _, err1 = run.App.GetComponentByName("on-demand") })
+	if run.Panic != nil {
+		c.Fail("", fmt.Sprintf("first lookup panicked: %v", run.Panic), detail)
+		return
+	}
+	if err1 == nil {
+		c.Fail("", "the first creation attempt was expected to fail (harness assumption broken)", detail)
+		return
+	}
+	run.App.Set(key, updated)
+	tree2 := setPath(tree, key, updated)
+	run.Guard(func() { _, err2 = run.App.GetComponentByName("on-demand") })
+	if run.Panic != nil {
+		c.Fail("", fmt.Sprintf("second lookup panicked: %v", run.Panic), detail)
+		return
+	}
+	detail["first_error"] = core.Short(err1.Error(), 200)
+	if err2 != nil {
+		c.Fail("", fmt.Sprintf("after %q was set to %q the re-attempted creation still fails: %s", key, updated, core.Short(err2.Error(), 300)), detail)
+		return
+	}
+	want, _, _, _ := modelResolve(tag, tree2)
+	if got := run.Nodes[h].Slot().CfgS; got != want {
+		c.Fail("", fmt.Sprintf("re-attempted creation after %q was set to %q: tag %q resolved to %q, expected %q", key, updated, tag, got, want), detail)
+		return
+	}
+	if withPrefix {
+		wantSect, _, _, _ := modelResolve("sect.${"+key+":dflt}", tree2)
+		wm, _ := lookup(tree2, wantSect).(map[string]any)
+		got := run.Nodes[h].Slot().CfgM
+		if fmt.Sprint(got["who"]) != fmt.Sprint(wm["who"]) {
+			c.Fail("", fmt.Sprintf("re-attempted creation after %q was set to %q: prefix path resolved to a section with who=%v, expected section %q (who=%v)", key, updated, got["who"], wantSect, wm["who"]), detail)
+			return
+		}
+	}
+	c.Count("retried_creations_checked", 1)
+	c.Nontrivial("retried|" + val + "|" + fmt.Sprint(initial, updated, failInit, withPrefix))
+}
+
 func (p c16) changing(c *core.Ctx) {
 	g := world.NewG(c.Rng)
 	first := g.AddNode(0, "a-first")   // T00 has Init and AfterPropertiesSet; sorts before the second
